@@ -228,10 +228,12 @@ func VerifC14Reduce(kind, n, keyMode int) {
 	}
 	empty := cls == zzC14BValid && s == e
 	// known findings
-	vrt.Carve("C14-valid-args-rejected", kind == zzC14List && n == 0)
-	vrt.Carve("C14-valid-args-rejected", c.hasS && empty)
-	vrt.Carve("C14-reduce-empty-and-key", empty && !hasInit)
-	vrt.Carve("C14-reduce-empty-and-key", cls == zzC14BValid && keyMode != 0 && kind != zzC14String && s < e)
+	// nil as the sequence, and :start = end of the range, are rejected
+	vrt.Carve("C14-valid-args-rejected", (kind == zzC14List && n == 0) || (c.hasS && empty))
+	// (a) empty range without :initial-value: f is not called, nil returned;
+	// (b) :key results are stored into the argument
+	vrt.Carve("C14-reduce-empty-and-key", (empty && !hasInit) ||
+		(cls == zzC14BValid && keyMode != 0 && kind != zzC14String && s < e))
 	orig := zzC14Seq(kind, c.vals)
 	form := slip.List{slip.Symbol("reduce"), zzC14Quote(zzC14NewSub()), zzC14Quote(orig)}
 	form = append(form, c.keywords()...)
